@@ -862,6 +862,9 @@ def pattern_add32(context, tree, c0, c1):
 
 
 @thumb_isa.pattern("reg", "ADDI8(reg,reg)", size=1)
+@thumb_isa.pattern("reg", "ADDU8(reg,reg)", size=1)
+@thumb_isa.pattern("reg", "ADDI16(reg,reg)", size=1)
+@thumb_isa.pattern("reg", "ADDU16(reg,reg)", size=1)
 def pattern_add8(context, tree, c0, c1):
     d = context.new_reg(LowArmRegister)
     context.emit(Add3(d, c0, c1))
@@ -1106,6 +1109,9 @@ def pattern_sub32_imm3(context, tree, c0):
 
 
 @thumb_isa.pattern("reg", "SUBI8(reg,reg)", size=2)
+@thumb_isa.pattern("reg", "SUBU8(reg,reg)", size=2)
+@thumb_isa.pattern("reg", "SUBI16(reg,reg)", size=2)
+@thumb_isa.pattern("reg", "SUBU16(reg,reg)", size=2)
 def pattern_sub8(context, tree, c0, c1):
     d = context.new_reg(LowArmRegister)
     context.emit(Sub3(d, c0, c1))
